@@ -21,7 +21,6 @@ type Prop struct {
 type NA struct{ ID, Reason string }
 
 var NotApplicable = []NA{
-	{"C02", "correctness of the compiler as a translation over programs x contexts; no code-shape discipline short of a semantics-preservation proof (a different technique family); see DESIGN.md section 4/C02"},
 	{"C12", "exactness of float<->decimal conversion is purely numerical (shortest digits, correct rounding over 2^64 inputs); no structural necessary condition beyond a single fallback `if`; see DESIGN.md section 4/C12"},
 	{"C19", "accepted JSON language and byte-exact serialisation are value-level; tokenising is delegated to encoding/json; no discipline in the code shape whose violation can be named; see DESIGN.md section 4/C19"},
 }
@@ -46,8 +45,23 @@ var All = []*Prop{
 		NotCovered: "'exactly once, innermost to outermost' as a whole, completion-value override by finally, catch/finally frame state machine (catchPos/finallyPos transitions in enterFinally/leaveFinally), generator return through nested finally blocks (enterNextFinallyFrame boundary tests), which getter of the iteration result is read inside which guard",
 	},
 	{
+		ID:    "C02",
+		Rules: []*core.Rule{rules.EmitBalance, rules.PutOnStack, rules.PVariant, rules.PatchEffect, rules.DummyIsolate, rules.EnterSlot},
+		Explanation: "Narrow: the compiler as a translation is not decided; decided is the operand-stack discipline of the code it emits, which is what the rewrites 'expression vs statement position', 'constant operands vs variables', 'unreachable code added' and 'visible to eval / plain local' exercise. " +
+			"The operand-stack effect of every VM instruction type is DERIVED from its exec method (sum of the constant vm.sp adjustments over all normal paths, with summaries of vm helpers; split by fall-through / jump for branching instructions; 238 of 259 types have a known effect). " +
+			"R-EMITBALANCE: abstract interpretation of the compiler's emitters over the domain 'net operand-stack effect of the bytecode emitted so far': for both values of the putOnStack flag every fully decidable emission path of every expression emitter leaves exactly the wanted value (1/0), helpers the flag is handed to differ by exactly one slot between the two flag values, statement compilers net 0, flag-less emit helpers agree on one effect over all their paths, and at every forward-jump target patched in the same function (j := len(code); emit(nil); ...; code[j] = jne(...)) the depth reached by the jump equals the depth reached by falling through. Paths with emissions that cannot be typed (calls, loops that emit, placeholders patched elsewhere) are counted and skipped, never guessed. " +
+			"R-PUTONSTACK: every path of every function that receives the flag consults it (or ends in a throw). " +
+			"R-PVARIANT: each P instruction has the derived effect of its base form minus one. " +
+			"R-PATCHEFFECT: the late allocation pass (finaliseVarAlloc) replaces a placeholder access instruction only by one with the same derived effect. " +
+			"R-DUMMYISOLATE: entering dead-code (dummy) compilation installs a block chain made only of fresh blocks, so break/continue in dead code cannot register patch positions of the throw-away program in live blocks. " +
+			"R-ENTERSLOT: the 'first binding aliases a value already on the stack' trick (enter.stackSize--) is applied only when the scope has no dynamic lookups.",
+		Technique:  "operand-stack effect table derived from exec methods (path summation on SSA); abstract interpretation of the emitters over net stack effect with flag specialisation and forward-jump join checks; must-consult path rule; sibling/table agreement; allocation-freshness of the dummy block chain; guarded-decrement belief rule",
+		DesignRef:  "DESIGN.md section 4, C02",
+		NotCovered: "everything else about the translation: scope analysis and which slot a name resolves to, constant folding results, completion values (needResult), function prologue variants, toString source capture, emission paths through calls/new/template/yield (variable effects), loops that emit, jumps patched through block.breaks/conts (loops, labelled statements, optional chains, try/finally), i.e. the behaviour of the compiled program",
+	},
+	{
 		ID:    "C01",
-		Rules: []*core.Rule{rules.PanicPayload, rules.ASTDispatch, rules.SelfAssert, rules.NilDesc, rules.Recover, rules.Classifier, rules.ReflectSafe, rules.EscapeAgree},
+		Rules: []*core.Rule{rules.PanicPayload, rules.ASTDispatch, rules.SelfAssert, rules.NilDesc, rules.Recover, rules.Classifier, rules.ReflectSafe, rules.EscapeAgree, rules.EmitBalance, rules.PutOnStack, rules.DummyIsolate, rules.EnterSlot},
 		Explanation: "Clauses decided: the engine's own ways of producing a non-documented panic are closed. " +
 			"R-PANICPAYLOAD classifies every panic(x) of the module (~500) by the static type of x: a type the boundary classifiers accept (derived from exceptionFromValue's case list, the uncatchableException implementers and compileAST on each run), a Value implementer, a re-panic of a recovered/classified value, a panic made unreachable by a preceding no-return call, or an internal assertion in the audited per-function table; a new string/error panic anywhere else is reported. " +
 			"R-ASTDISPATCH: every type switch over an interface of goja/ast whose default ends in an internal diagnostic covers every concrete ast type implementing the interface (go/types), up to an audited table of node types that the grammar only places in slots handled by the parent. " +
@@ -55,10 +69,11 @@ var All = []*Prop{
 			"R-NILDESC: optional PropertyDescriptor fields are never dereferenced without a nil test (inter-procedural dereference summary). " +
 			"R-RECOVER/R-CLASSIFIER (see C14): no recover swallows or misclassifies a payload. " +
 			"R-REFLECTSAFE: script operations on reflect-backed host objects never reach a panicking form of package reflect (FieldByIndex; Index beyond Len()) - see C13. " +
-			"R-ESCAPEAGREE: the lexer's measuring pass (scanEscape) and the decoder (parseStringLiteral) consume the same maximal number of digits for a legacy octal escape - the decoder panics on its own length self-check otherwise (seeded three times by independent agents).",
+			"R-ESCAPEAGREE: the lexer's measuring pass (scanEscape) and the decoder (parseStringLiteral) consume the same maximal number of digits for a legacy octal escape - the decoder panics on its own length self-check otherwise (seeded three times by independent agents). " +
+			"R-EMITBALANCE / R-PUTONSTACK / R-DUMMYISOLATE / R-ENTERSLOT (see C02): the decidable part of operand-stack balance of emitted bytecode - an unbalanced sequence shifts the callee/this slots of an enclosing call and ends in a failed Go type assertion or index panic; dead-code break patching and the uint32 underflow of enterBlock.stackSize crash the host outright.",
 		Technique:  "panic-operand typing with classifier sets derived from the code, no-return dominance, type-switch exhaustiveness over go/types, justified-assertion and nil-dereference rules with inter-procedural summaries",
 		DesignRef:  "DESIGN.md section 4, C01",
-		NotCovered: "Go runtime panics at arbitrary sites (index out of range, nil dereference other than the descriptor clause, failed assertions on values other than X.self), operand-stack balance of emitted bytecode (e.g. the dummy-mode break/try interaction), parser panics guarded by length precomputation: properties of run-time data",
+		NotCovered: "Go runtime panics at arbitrary sites (index out of range, nil dereference other than the descriptor clause, failed assertions on values other than X.self), operand-stack balance of emitted bytecode beyond the decidable paths of R-EMITBALANCE (calls, loops, jumps patched through block.breaks), parser panics guarded by length precomputation: properties of run-time data",
 	},
 	{
 		ID:    "C10",
